@@ -28,7 +28,10 @@ CLAIMED = {
         "switch, laddr/jmpi and label-reference items, self loops, alloca and bstart/bend, direct/indirect/variadic/callback calls, block arguments, "
         "overflow insns, f/d/ld arithmetic, addr insns, global variables tied to hard registers, data/bss/ref sections, absolute addressing) and MIRSem.tla executes them; TLC simulation yields programs whose "
         "run is defined, with their observations. Each is run under the interpreter and generated code at -O0..-O3; any difference from the "
-        "interpreter in result, caller-visible memory or external-call log is a violation.",
+        "interpreter in result, caller-visible memory or external-call log is a violation. Parametric families (families.py, c01.py; expected values "
+        "from MIRRun.tla) add the shapes optimiser passes look for: dead lref islands, loop nests with insns that must not move, all 3-access "
+        "sequences over an overlapping window, constants meeting internal numbers, FP comparisons on special values, block cloning, and+extension, "
+        "spilled base/index accesses, global variables around calls, property insns, jcall/jret.",
    note="The specification certifies well-definedness (division, shifts, uninitialised reads, address-dependent values, undefined upper halves of "
         "32-bit results, inexact FP) so UB programs are never replayed. Bounded: 12 random slots per program, sampled not exhaustive.",
    technique="TLA+ abstract machine + program constructor; TLC-simulated behaviours replayed on interpreter vs generator (direction A)",
